@@ -6,6 +6,14 @@ CHECKS = [
           "refused calls interleaved, is executed on the real code; U, U_full shape, unitarity and leading block are "
           "compared with an independent matrix product. Bounded in depth/modes/values, exhaustive inside the bound.",
   "note": "finite value alphabet stands for the real ranges (seed-varied generic points); numpy linear algebra trusted"},
+ {"id": "C02", "engine": "E1", "ref": "DESIGN.md §3 C02",
+  "technique": "bounded exhaustive enumeration of parent programs x sub-circuit library; heralded amplitudes vs RefCircuit",
+  "text": "Every parent program up to the depth bound over add(sub, m, group) for every library sub-circuit shape, every "
+          "placement including illegal ones and both group flags, interleaved with beam splitters/swaps across ancillas "
+          "and parent heralds, is executed on the real Circuit; legality, user-mode count, ancilla herald bookkeeping and "
+          "all heralded amplitudes (scatter matrix up to permutation of equal-photon ancillas, witness = concrete differing "
+          "amplitude) are compared with RefCircuit, which has no mode-shifting logic.",
+  "note": "n<=5 user modes, depth<=3, sub library of 10 shapes (<=2 heralds, nesting depth 2-3); Haar blocks stand for all unitaries"},
 ]
 _REASON = "check not built yet in this session (work in progress; not a claim that the technique cannot apply)"
 NOT_YET = [(f"C{i:02d}", _REASON) for i in range(1, 20) if f"C{i:02d}" not in {c["id"] for c in CHECKS}]
